@@ -157,7 +157,7 @@ fn diff<T: Ord + Clone>(a: &BTreeMap<T, usize>, b: &BTreeMap<T, usize>) -> (Vec<
 
 fn case(ctx: &Ctx, tape: &[u8], rec: &Rec) -> Verdict {
     let mut t = Tape::new(tape);
-    let p = gen_project(&mut t, ProjOpts { max_defs: 5, ..ProjOpts::default() });
+    let p = gen_project(&mut t, ProjOpts { max_defs: 5, sugar_chance: 60, ..ProjOpts::default() });
     let dir = scratch(ctx, "c17");
     let r = case_in(ctx, &p, &mut t, rec, &dir).map_err(|b| if b.rendered.is_empty() { b.rendered(p.describe()) } else { b });
     let _ = std::fs::remove_dir_all(&dir);
@@ -182,6 +182,9 @@ fn case_in(ctx: &Ctx, p: &GenProject, t: &mut Tape, rec: &Rec, dir: &Path) -> Ve
     }
     if p.bom_files > 0 {
         rec.class("projects_with_byte_order_mark");
+    }
+    if p.sugared_defs > 0 {
+        rec.class("projects_with_tuple_or_anonymous_component_statements");
     }
     let ndefs: usize = p.files.iter().map(|f| f.ast.defs.len()).sum();
     let nfind: usize = first.norm.values().sum();
